@@ -814,6 +814,47 @@ fn judge_b(out: &mut UnitOut, name: &str, program: &str, n: &Nest, exp: &[i64], 
     }
 }
 
+
+// ------------------------------------------------------------------ family S: sibling scopes
+
+/// A binding of `x` made in one scope must not be visible in a LATER SIBLING scope (another arm of the same match,
+/// the other branch of an if, the next block / loop / lambda / match), which must see the enclosing `x = 101`.
+/// Each construct runs the binding sibling first (so its slot has been written) and then the sibling that reads.
+/// (name, statements after `let x = 101`, expected emits)
+pub fn sibling_cases() -> Vec<(String, String, Vec<i64>)> {
+    let e = |v: &str| format!("vh_emit_int({v})");
+    let mut v: Vec<(String, String, Vec<i64>)> = vec![];
+    let mut add = |n: &str, b: String, x: Vec<i64>| v.push((format!("siblings: {n}"), b, x));
+    for binder_first in [true, false] {
+        let (a1, a2) = (format!(".some(x) -> {}", e("x")), format!(".none -> {}", e("x")));
+        let arms = if binder_first { format!("{a1}\n{a2}") } else { format!("{a2}\n{a1}") };
+        add(
+            &format!("arm pattern .some(x) then arm .none reads x (binder arm {})", if binder_first { "first" } else { "second" }),
+            format!("for sel in [option.some(115), option.none, option.some(116), option.none] {{\nmatch sel {{\n{arms}\n}}\n}}\n"),
+            vec![115, 101, 116, 101],
+        );
+    }
+    add("tuple pattern (x, 1) then wildcard arm reads x", format!("for t in [(115, 1), (116, 2)] {{\nmatch t {{\n(x, 1) -> {}\n_ -> {}\n}}\n}}\n", e("x"), e("x")), vec![115, 101]);
+    add("literal arm reads x, later arm binds x", format!("for n in [115, 5, 116, 5] {{\nmatch n {{\n5 -> {}\nx -> {}\n}}\n}}\n", e("x"), e("x")), vec![115, 101, 116, 101]);
+    add("or-pattern arm binds x in both alternatives, later arm reads x", format!("for t in [(115, 1), (116, 2), (117, 3)] {{\nmatch t {{\n(x, 1) | (x, 2) -> {}\n_ -> {}\n}}\n}}\n", e("x"), e("x")), vec![115, 116, 101]);
+    add("arm block declares x, later arm reads x", format!("for n in [1, 2] {{\nmatch n {{\n1 -> {{\nlet x = 115\n{}\n}}\n_ -> {}\n}}\n}}\n", e("x"), e("x")), vec![115, 101]);
+    add("string payload bound as x, later arm reads the int x", format!("for sel in [option.some(\"s\"), option.none] {{\nmatch sel {{\n.some(x) -> {}\n.none -> {}\n}}\n}}\n", e("if x == \"s\" {\n1\n} else {\n0\n}"), e("x + 1")), vec![1, 102]);
+    add("then-branch declares x, else-branch reads x", format!("for c in [true, false] {{\nif c {{\nlet x = 115\n{}\n}} else {{\n{}\n}}\n}}\n", e("x"), e("x")), vec![115, 101]);
+    add("else-branch declares x, then-branch reads x", format!("for c in [false, true] {{\nif c {{\n{}\n}} else {{\nlet x = 115\n{}\n}}\n}}\n", e("x"), e("x")), vec![115, 101]);
+    add("block declares x, next block reads x", format!("{{\nlet x = 115\n{}\n}}\n{{\n{}\n}}\n", e("x"), e("x")), vec![115, 101]);
+    add("lambda parameter x, next lambda reads x", format!("let l1 = (x: int) -> x + 1\nlet l2 = (y: int) -> x + y\n{}\n{}\n", e("l1(115)"), e("l2(1)")), vec![116, 102]);
+    add("match arm binds x, next match reads x", format!("match option.some(115) {{\n.some(x) -> {}\n.none -> {}\n}}\nmatch 1 {{\n_ -> {}\n}}\n", e("x"), e("0"), e("x")), vec![115, 101]);
+    add("for variable x, next loop reads x", format!("for x in range(115, 116) {{\n{}\n}}\nfor y in 1 {{\n{}\n}}\n", e("x"), e("x")), vec![115, 101]);
+    add("while body declares x, next while reads x", format!("var w = 0\nwhile w < 1 {{\nw += 1\nlet x = 115\n{}\n}}\nwhile w < 2 {{\nw += 1\n{}\n}}\n", e("x"), e("x")), vec![115, 101]);
+    add(
+        "nested: inner match arm binds x, outer match's later arm reads x",
+        format!("for sel in [option.some(option.some(115)), option.some(option.none), option.none] {{\nmatch sel {{\n.some(inner) -> match inner {{\n.some(x) -> {}\n.none -> {}\n}}\n.none -> {}\n}}\n}}\n", e("x"), e("x"), e("x")),
+        vec![115, 101, 101],
+    );
+    // every case ends by reading x again after all siblings have closed
+    v.into_iter().map(|(n, b, mut x)| { x.push(101); (n, format!("let x = 101\n{b}vh_emit_int(x)\n"), x) }).collect()
+}
+
 // ------------------------------------------------------------------ units
 
 struct Plan {
@@ -858,7 +899,7 @@ impl Prop for C21 {
     }
     fn n_units(&self, tier: Tier) -> usize {
         let p = plan(tier);
-        p.a_units.len() + 1 + p.b_fn_units + p.b_top_units + p.e_units.len()
+        p.a_units.len() + 1 + p.b_fn_units + p.b_top_units + p.e_units.len() + 1
     }
     fn run_unit(&self, tier: Tier, unit: usize, out: &mut UnitOut) {
         let p = plan(tier);
@@ -910,6 +951,33 @@ impl Prop for C21 {
                 };
                 judge_b(out, &c.name, &c.standalone(), n, &exps[k], res, pk);
             });
+        } else if unit == na + 1 + p.b_fn_units + p.b_top_units + p.e_units.len() {
+            // sibling scopes: inside a function body and at top level, each program standalone
+            let empty = Nest { scopes: vec![], decls: vec![] };
+            let mut idx = 0u64;
+            for (name, body, exp) in sibling_cases() {
+                for top in [false, true] {
+                    idx += 1;
+                    if !out.begin_case(idx - 1) {
+                        continue;
+                    }
+                    let text = if top { format!("use vh\n{body}") } else { format!("use vh\nfn sib() {{\n{body}}}\nsib()\n") };
+                    let name = format!("{name} ({})", if top { "at top level" } else { "in a function body" });
+                    out.describe_case(&format!("{name}\n{text}"));
+                    out.evaluations += 1;
+                    out.count("sibling_programs", 1);
+                    let src = Src::with_vh(&text);
+                    let (res, pk) = match drive::compile(&src, COpts::default()) {
+                        Compiled::Ok(prog) => {
+                            let r = drive::run(&prog, &src.host_table(), StdHost::default(), ROpts { budget: u32::MAX, max_steps: 100_000 });
+                            (Ok((r.end, r.host.emits)), vec![])
+                        }
+                        Compiled::Diag(d) => (Err(format!("rejected: {d}")), vec!["rejected".to_string()]),
+                        Compiled::Panic(pi) => (Err(format!("compiler panic at {}: {}", pi.site, pi.msg)), vec![pi.site_key()]),
+                    };
+                    judge_b(out, &name, &text, &empty, &exp, res, pk);
+                }
+            }
         } else if unit >= na + 1 + p.b_fn_units + p.b_top_units {
             let (sa, own, sb) = p.e_units[unit - (na + 1 + p.b_fn_units + p.b_top_units)];
             let (aa_text, bb_text) = (file_text_e(sa, Who::Aa), file_text_e(sb, Who::Bb));
@@ -969,7 +1037,8 @@ impl Prop for C21 {
              mk() matched by unqualified and, when En is mk's own enum, by qualified patterns, `q.En.Ra` and `q.mk()` through an alias), one program per way of naming an invisible En \
              (qualified expression, qualified pattern on an inferred parameter, type annotation, qualified patterns on the result of a visible mk() / q.mk(); expected: unresolved-identifier diagnostic), one for an invisible mk, or a single program when the model finds a clash. \
              B (scopes): all chains of ≤ {} nested scopes from {:?} inside a function body (batched) and ≤ {} at top level (standalone), levels of non-x-binding scopes declare `let x` {{never, before, after}} the inner scope; \
-             x is read innermost and after every scope closes; expected values from an environment-stack model. Every case is non-trivial (each checks at least one resolution); distinct by case name.",
+             x is read innermost and after every scope closes; expected values from an environment-stack model. \
+             S (sibling scopes): a binding of x made in one arm / branch / block / loop / lambda / match must not be visible in a later sibling, which reads the enclosing x (arm patterns of several shapes, arm blocks, if/else branches, blocks, loops, lambdas, nested matches; each run so that the binding sibling executes first), in a function body and at top level. Every case is non-trivial (each checks at least one resolution); distinct by case name.",
             tier.pick("{f, Ty}", "{f, g, Ty}"),
             tier.pick("{{En}, {En,mk}} × {∅, {En,mk}}", "{∅, {En}, {En,mk}}²"),
             depth_fn(tier),
